@@ -105,11 +105,11 @@ def _work_backoff_runs(task) -> core.Part:
 
 # ---- manager -----------------------------------------------------------------------------------------------------
 
-def pacing_errors(script, thr, slp, maxd, horizon=None, epoch=None) -> list[str]:
+def pacing_errors(script, thr, slp, maxd, horizon=None, epoch=None, twin=0) -> list[str]:
     if horizon is None:
         horizon = 600.0 + 61.0 * len(script)
     sc = vloop.Scenario([(o[0], (o[2] if len(o) > 2 else 0), o[1]) for o in script] + [("S", 0, None)], threshold=thr, sleep_sec=slp, max_delay=maxd,
-                        horizon=horizon + sum((o[2] if len(o) > 2 else 0) for o in script), epoch=epoch).run()
+                        horizon=horizon + sum((o[2] if len(o) > 2 else 0) for o in script), epoch=epoch, twin_failures=twin).run()
     log = [(e[0], e[1], e[2]) for e in sc.log]
     errs = list(dict.fromkeys(sc.problems))
     n = 0  # consecutive failures
@@ -152,6 +152,8 @@ def pacing_errors(script, thr, slp, maxd, horizon=None, epoch=None) -> list[str]
 def replay(case: dict) -> list[str]:
     if case.get("kind") == "backoff":
         return backoff_errors(case["seq"])
+    if case.get("twin"):
+        return pacing_errors([tuple(x) for x in case["script"]], case["thr"], case["slp"], case["maxd"], twin=case["twin"])
     if case.get("epoch"):
         import datetime as _dt
 
@@ -202,18 +204,19 @@ def _work_mgr_calendar(task) -> core.Part:
 
 
 def _work_mgr(task) -> core.Part:
-    scripts, settings = task
+    scripts, settings = task[:2]
+    twin = task[2] if len(task) > 2 else 0
     p = core.Part()
     for script in scripts:
         for thr, slp, maxd in settings:
-            e = pacing_errors(script, thr, slp, maxd)
+            e = pacing_errors(script, thr, slp, maxd, twin=twin)
             p.add("executions")
             p.add("nontrivial")
             p.add("attempts", len(script) + 1)
             p.out("paced_ok" if not e else "pacing_violation")
             for m in e:
-                p.viol("pacing", f"pacing:{script}:{thr}:{slp}:{maxd}:{m[:30]}", f"script {list(script)} threshold={thr} sleep={slp} max_delay={maxd}: {m}",
-                       {"script": [list(x) for x in script], "thr": thr, "slp": slp, "maxd": maxd}, size=len(script))
+                p.viol("pacing", f"pacing:{script}:{thr}:{slp}:{maxd}:{m[:30]}", f"script {list(script)} threshold={thr} sleep={slp} max_delay={maxd}{f' (after another manager of the process had {twin} failed attempts)' if twin else ''}: {m}",
+                       {"script": [list(x) for x in script], "thr": thr, "slp": slp, "maxd": maxd, "twin": twin}, size=len(script))
         if p.full("pacing"):
             p.capped = True
             break
@@ -237,6 +240,10 @@ def main(run: core.Run) -> int:
     batches = [(scripts[i::64], SETTINGS) for i in range(64)]
     run.log(f"{len(scripts)} scripts x {len(SETTINGS)} settings")
     run.merge(par.pmap(_work_mgr, batches, seed=run.seed))
+    # another manager of the same process went through 1 / 5 failed attempts (and was closed) before the one under test starts
+    tw_scripts = [s_ for n in range(1, 5) for s_ in itertools.product(OUTS, repeat=n)]
+    run.log(f"twin manager history: {len(tw_scripts)} scripts x 2 twin histories x 2 settings")
+    run.merge(par.pmap(_work_mgr, [(tw_scripts[i::16], SETTINGS[:2], k) for i in range(16) for k in (1, 5)], seed=run.seed))
     eps = calendar_epochs()
     cal_scripts = [s_ for n in (2, 3) for s_ in itertools.product((("S", 1), ("S", 3), ("S", 10), ("F", None)), repeat=n) if sum(1 for o in s_ if o[0] == "S") >= 2]
     cal_scripts += [(("S", 9), ("S", 1), ("S", 1)), (("S", 10), ("S", 2)), (("S", 12), ("S", 1))]
@@ -247,6 +254,7 @@ def main(run: core.Run) -> int:
     tot.sample({"script": [["F", None], ["F", None], ["S", 1], ["S", 1]], "setting": {"threshold": 5, "sleep": 5, "max_delay": 60},
                 "expected": "attempt 2 at +1 s, attempt 3 at +2 s, attempt 4 right after the first loss, attempt 5 >= 5 s after the second loss"})
     run.bounds = {"backoff_depth": 14, "backoff_run_lengths": "f^k, f^k r, f^k r f^j, f^k r f^5 r f^j for k = 1..200", "max_delay": "1..3600 (complete)", "manager_script_length": L, "slow_attempts": "all scripts of <= 4 attempts over failures after 0/0.4/1.5/10/61 s and a success after 2.5 s", "settings": [list(s) for s in SETTINGS],
+                  "twin_manager": f"{len(tw_scripts)} scripts (<= 4 attempts) run after another ConnectionManager of the process had 1 / 5 failed attempts with settings of its own",
                   "calendar": f"{len(eps)} wall-clock start readings (11 s before every hour of the EU switch days, selected hours of US switch days, leap day, new year, 2038) x process zone UTC / CET-CEST x {len(cal_scripts)} loss scripts"}
     run.assumptions = ["han.meter_connection.datetime is substituted by a shim reading the virtual clock (if that name disappears, loss-timing clauses are skipped)",
                        "scheduling slack: 1e-6 virtual seconds"]
